@@ -834,9 +834,22 @@ impl Log {
 			};
 			*appending = Some(Appending { size: 0, file: std::io::BufWriter::new(file), id });
 		}
+		let flushed = log.flush_to_file(&mut appending.as_mut().unwrap().file);
+		let FlushedLog { index, values, ref_count, bytes } = match flushed {
+			Ok(flushed) => flushed,
+			Err(e) => {
+				// The file may now end in a torn record. Records are enacted from the read queue
+				// without validation, so this file must never be handed over by `flush_one`:
+				// retire the writer (without flushing what is left of the record). The file
+				// stays on disk and the next open replays its complete records.
+				if let Some(torn) = appending.take() {
+					log::debug!(target: "parity-db", "Retiring log {} after a failed write", torn.id);
+					let _ = torn.file.into_parts();
+				}
+				return Err(e)
+			},
+		};
 		let appending = appending.as_mut().unwrap();
-		let FlushedLog { index, values, ref_count, bytes } =
-			log.flush_to_file(&mut appending.file)?;
 		let mut overlays = self.overlays.write();
 		let mut total_index = 0;
 		for (id, overlay) in index.into_iter() {
